@@ -8,10 +8,9 @@ Local Ltac Zify.zify_post_hook ::= idtac.
 Lemma RB_perm p pend p' pend' pr src sg : Permutation (p_out p ++ pend) (p_out p' ++ pend') -> p_in p' = p_in p ->
   RB p pend pr src sg -> RB p' pend' pr src sg.
 Proof.
-  intros P Hin [R1 [R2 R3]]. split; [|split].
+  intros P Hin [R1 R2]. split.
   - intros id a n H. apply (R1 id a n). apply (Permutation_in _ (Permutation_sym P) H).
   - intros id x H. rewrite Hin in H. apply (R2 id x H).
-  - intros id a x H. apply (R3 id a x). apply (Permutation_in _ (Permutation_sym P) H).
 Qed.
 
 Lemma WB_perm p pend p' pend' pw wr src dst sa da dg : Permutation (p_out p ++ pend) (p_out p' ++ pend') ->
@@ -44,8 +43,9 @@ Proof.
   - apply (UB_shrink d d2 pi po pi2 po2); [rewrite Hid; apply N.le_refl| |exact U].
     intros s Hs. exists []. cbn [app]. unfold idlist. destruct (HP s Hs) as [Hin P]. rewrite Hin.
     apply Permutation_app_tail. apply Permutation_map. exact P.
-  - rewrite Hact. intro Act. destruct (A Act) as [Hss Hds Hne Fs Fd R B W].
+  - rewrite Hact. intro Act. destruct (A Act) as [Hss Hds Sep Nw Fs Fd R B W].
     constructor; rewrite ?F1, ?F2, ?F3, ?F4, ?F5, ?F6, ?F7, ?F8, ?F9; try assumption.
+    + intros s Hs id a x H. destruct (HP s Hs) as [_ P]. apply (Nw s Hs id a x). apply (Permutation_in _ (Permutation_sym P) H).
     + destruct (HP _ Hss) as [Hin P]. apply (RB_perm _ _ _ _ _ _ _ P Hin R).
     + destruct (HP _ Hds) as [Hin P]. apply (WB_perm _ _ _ _ _ _ _ _ _ _ _ P W).
   - rewrite Hact. intros Act s Hs id a x H. destruct (HP s Hs) as [_ P].
@@ -69,7 +69,9 @@ Record einv (gi go : N) (li lo : nat) (e : env) : Prop := mk_einv {
   e_k : kinv li lo (e_dm e) (e_mem_in e) (e_mem_out e) (e_pend_in e) (e_pend_out e);
   e_s : ss_ok (e_dm e) }.
 
-Definition src_mem (e : env) : list N := pick (d_sside (e_dm e)) (e_mem_in e) (e_mem_out e).
+(** the bytes of the source range of the move in progress *)
+Definition src_mem (e : env) : list N :=
+  mem_read (pick (d_sside (e_dm e)) (e_mem_in e) (e_mem_out e)) (v_saddr (d_req (e_dm e))) (v_size (d_req (e_dm e))).
 
 Lemma serve_einv gi go li lo s e k : s <= 1 -> einv gi go li lo e ->
   einv gi go li lo (serve s e k) /\
@@ -83,7 +85,8 @@ Proof.
   - constructor; [|exact K'|].
     + destruct (serve_core s e k) as [SC T]. apply (ginv_core gi go (e_dm e)); [exact SC|rewrite T; apply (g_nice _ _ _ G)|exact G].
     + unfold ss_ok in *. unfold ctl in C. inversion C as [[C1 C2 C3 C4 C5 C6]]. rewrite C2, C3, Hss. exact S.
-  - intro Act. unfold src_mem. rewrite Hss. apply (M Act).
+  - intro Act. unfold src_mem. rewrite Hss. unfold ctl in C. inversion C as [[C1 C2 C3 C4 C5 C6]]. rewrite C3.
+    apply (M Act); [apply N.le_refl|apply N.le_refl].
 Qed.
 
 Lemma serve_fold_einv gi go li lo s ks : s <= 1 -> forall e, einv gi go li lo e ->
